@@ -86,7 +86,11 @@ class C15(Scenario):
         sp = case["spec"]
         h = make_state(self, w, case)
         raw = h.toJson()
-        text = json.dumps(raw)
+        try:
+            text = json.dumps(raw)
+        except (TypeError, ValueError):
+            w.bump("probe_base_state_not_serialisable")  # C04's business (strict JSON)
+            return
         doc = json.loads(text)
         if not grammar.valid_document(observe.normalise(doc)):
             raise HarnessError("grammar rejects a document the library emitted: %s" % text[:500])
